@@ -249,6 +249,41 @@ func (pConn *PFCPConn) handleAssociationReleaseRequest(msg message.Message) (mes
 	return arres, nil
 }
 
+// allPFDContents returns the PFD Contents IEs of every PFD Context of an Application ID's PFDs IE
+// (the go-pfcp accessor only looks at the first PFD Context).
+func allPFDContents(appIDPFD *ie.IE) ([]*ie.IE, error) {
+	children, err := appIDPFD.ApplicationIDsPFDs()
+	if err != nil {
+		return nil, err
+	}
+
+	var (
+		contents []*ie.IE
+		found    bool
+	)
+
+	for _, child := range children {
+		if child.Type != ie.PFDContext {
+			continue
+		}
+
+		found = true
+
+		ctx, err := child.PFDContext()
+		if err != nil {
+			return nil, err
+		}
+
+		contents = append(contents, ctx...)
+	}
+
+	if !found {
+		return nil, ie.ErrIENotFound
+	}
+
+	return contents, nil
+}
+
 func pfdContentsFields(i *ie.IE) (fields *ie.PFDContentsFields, err error) {
 	defer recoverMalformedIE(&err)
 
@@ -288,7 +323,7 @@ func (pConn *PFCPConn) handlePFDMgmtRequest(msg message.Message) (message.Messag
 		pConn.NewAppPFD(id)
 		applicationPFD := pConn.appPFDs[id]
 
-		pfdCtx, err := appIDPFD.PFDContext()
+		pfdCtx, err := allPFDContents(appIDPFD)
 		if err != nil {
 			pConn.RemoveAppPFD(id)
 			return errUnmarshalReply(err, appIDPFD)
